@@ -91,6 +91,11 @@ end
 theorem C13_ctor_ok (d : Dist) (h : Validate.dist d = true) : ctorOK d.dist = true :=
   ctorOK_of_validate h
 
+/-- non-vacuity: `Poisson { lambda: 1e42 }` and `Uniform { low: 0, high: f64::MAX }` pass validation -/
+example : Validate.dist ⟨.poisson 0x48a6f578c4e0a061, 0, 0⟩ = true ∧
+    Validate.dist ⟨.uniform 0 0x7fefffffffffffff, 0, 0⟩ = true := by
+  refine ⟨by decide +kernel, by decide +kernel⟩
+
 /-- Uniform: validation gives real bounds with `low ≤ high` and a finite f64 range; when the
     constant fast path is not taken (`low ≠ high`) the `gen_range` preconditions hold -/
 theorem C13_uniform_validated (lo hi : F64) (h : Validate.distType (.uniform lo hi) = true) :
